@@ -335,15 +335,17 @@ def c14(run):
     r_oscsplit.run(run, P)
     from rules import r_oscrole
     r_oscrole.run(run, P)
+    r_oscsplit.run_flag_reach(run, P)
     run.min_instances('R-OSC-SPLIT', 7)
     run.assumptions = ASSUME_COMMON + ["byte equality with an independent RFC 8613 implementation (COSE object, AAD, nonce, AES-CCM output) and the round trip are NOT decided"]
     return run.finish(
-        "Three clauses of C14 are decided: (1) outer/inner option split - case-label dataflow in coap_oscore_new_pdu_encrypted_lkd against RFC 8613 "
+        "Four clauses of C14 are decided: (1) outer/inner option split - case-label dataflow in coap_oscore_new_pdu_encrypted_lkd against RFC 8613 "
         "Figure 5: only class U (+Hop-Limit, E&U duplicates, the OSCORE option) options reach the returned outer PDU, everything the code does not "
         "name goes into the PDU handed to cose_encrypt0_set_plaintext; (2) tamper rejection - every accepting return of coap_oscore_decrypt_pdu is "
         "reached only with the result of cose_encrypt0_decrypt known > 0 (R-OSC-SPLIT); (3) the association that carries the request's AAD, "
         "nonce and partial IV to the response is filled, refreshed and read back field-for-field from the COSE object's fields of the same role "
-        "(R-OSC-ROLE, roles computed from the two record types).")
+        "(R-OSC-ROLE, roles computed from the two record types); (4) every local flag that steers an RFC 8613 step in the protect / unprotect "
+        "functions can have its non-initial value where it is tested (reaching definitions).")
 
 
 def c02(run):
